@@ -223,7 +223,7 @@ class C16(Prop):
                 _, g = self.valid_tag_obj(r, kinds)                            # field of another kind (contradictory/extra)
                 for name, val in g[1:]:
                     if name not in [n for n, _ in f]:
-                        f.insert(r.randint(1, len(f)), (name, val))
+                        f.insert(r.randint(min(1, len(f)), len(f)), (name, val))
             elif c < 0.5:
                 f.insert(r.randint(0, len(f)), (r.choice(["extra", "Kind", "path", "tags", ""]), self.rand_jval(r)))  # unknown field
             elif c < 0.62:
@@ -234,7 +234,7 @@ class C16(Prop):
                         ("disposition", ("z",)), ("signal", ("z",)), ("full", ("z",))]
                 name, val = r.choice(opts)
                 f = [(n, v) for n, v in f if n != name]
-                f.insert(r.randint(1, len(f)), (name, val))
+                f.insert(r.randint(min(1, len(f)), len(f)), (name, val))
             elif c < 0.72:
                 name = r.choice(DOC_FIELDS[1:])                                # duplicate known key
                 f.append((name, ("z",)))
